@@ -423,6 +423,8 @@ def replay_C19(w, clause):
     wr, rd = entity_writer(cls), entity_reader(cls)
     k = w.get("fault_k")
     kind = w["call1"]
+    if kind.startswith("interleaved"):
+        return _c19_interleaved(cls, a, b, kind, k, wr, rd, kref, w)
     cuts = [None]
     if kind == "read_truncated":
         n = len(_encode(cls, a))
@@ -433,6 +435,55 @@ def replay_C19(w, clause):
         if verdict["reproduced"]:
             return verdict
     return verdict
+
+
+def _c19_interleaved(cls, a, b, kind, k, wr, rd, kref, w):
+    """call A suspended inside its k-th stream call while a complete call B runs on the same cached closure"""
+    ref_a, ref_b = bytes(kref.encode(a)), bytes(kref.encode(b))
+    state = {"n": 0, "b": None}
+    try:
+        if kind == "interleaved_write":
+            class S1:
+                def __init__(self):
+                    self.buf = bytearray()
+
+                def write(self, data):
+                    if state["n"] == k and state["b"] is None:
+                        sb = io.BytesIO()
+                        wr(sb, b)
+                        state["b"] = sb.getvalue()
+                    state["n"] += 1
+                    self.buf += bytes(data)
+
+            s1 = S1()
+            wr(s1, a)
+            if state["b"] is None:
+                return {"reproduced": False, "detail": "switch index beyond the last write"}
+            if bytes(s1.buf) != ref_a or state["b"] != ref_b:
+                which = "A" if bytes(s1.buf) != ref_a else "B"
+                return {"reproduced": True, "sig": {"kind": "interleaving_changes_result", "call": which, "op": "write"},
+                        "detail": f"{w['class']}: with call B run inside A's write #{k}, the bytes of call {which} differ from the bytes it produces alone"}
+        else:
+            class R1:
+                def __init__(self, data):
+                    self.b = io.BytesIO(data)
+
+                def read(self, n=-1):
+                    if state["n"] == k and state["b"] is None:
+                        state["b"] = (rd(io.BytesIO(ref_b)),)
+                    state["n"] += 1
+                    return self.b.read(n)
+
+            ya = rd(R1(ref_a))
+            if state["b"] is None:
+                return {"reproduced": False, "detail": "switch index beyond the last read"}
+            if ya != a or state["b"][0] != b:
+                which = "A" if ya != a else "B"
+                return {"reproduced": True, "sig": {"kind": "interleaving_changes_result", "call": which, "op": "read"},
+                        "detail": f"{w['class']}: with call B run inside A's read #{k}, call {which} decodes to a different value than alone"}
+    except Exception as e:
+        return {"reproduced": True, "sig": {"kind": "interleaving_raises", **_exc_sig(e)}, "detail": f"{w['class']}: {type(e).__name__}: {e} with call B run inside call A's stream call #{k}"}
+    return {"reproduced": False, "detail": "interleaving has no effect"}
 
 
 def _c19_history(cls, a, b, kind, k, cut, wr, rd, c19, kref, w):
